@@ -1,6 +1,6 @@
 //! C20: one context shared by several threads.
 use crate::Script;
-use sodium_rust::{SodiumCtx, StreamSink};
+use sodium_rust::{SodiumCtx, StreamSink, Transaction};
 use std::io::Write;
 use std::panic::{catch_unwind, AssertUnwindSafe};
 use std::sync::mpsc::channel;
@@ -11,6 +11,8 @@ use std::sync::{Arc, Mutex};
 /// OS thread (A or B), handed over through channels, so that the transaction closures really are open
 /// on both threads at once. The program: sinks sa, sb; listener 0 on sa.merge(sb, +); listener 1 on sa;
 /// listener 2 on sb. Output: one line per step with the calls observed during it.
+/// "A topen k" opens a scoped transaction (ctx.new_transaction()) on thread A and parks it in slot k;
+/// "B tclose k" closes it on thread B (Transaction is Send: a bracket may be handed to another thread).
 fn interleaving<W: Write>(script: &Script, out: &mut W) {
     let ctx = SodiumCtx::new();
     let sa: StreamSink<i64> = ctx.new_stream_sink();
@@ -36,6 +38,7 @@ fn interleaving<W: Write>(script: &Script, out: &mut W) {
         .collect();
     // a token passes from step to step; each thread runs its own steps when it holds the token
     let (done_tx, done_rx) = channel::<(usize, String)>();
+    let parked: Arc<Mutex<std::collections::HashMap<usize, Transaction>>> = Arc::new(Mutex::new(Default::default()));
     let mut txs = std::collections::BTreeMap::new();
     let mut handles = Vec::new();
     for t in ['A', 'B'] {
@@ -44,6 +47,7 @@ fn interleaving<W: Write>(script: &Script, out: &mut W) {
         let ctx = ctx.clone();
         let sink = if t == 'A' { sa.clone() } else { sb.clone() };
         let done_tx = done_tx.clone();
+        let parked = parked.clone();
         handles.push(std::thread::spawn(move || {
             // recursive interpreter: "{" opens a closure transaction and keeps serving steps inside it
             fn serve(
@@ -51,6 +55,7 @@ fn interleaving<W: Write>(script: &Script, out: &mut W) {
                 sink: &StreamSink<i64>,
                 rx: &std::sync::mpsc::Receiver<(usize, String)>,
                 done: &std::sync::mpsc::Sender<(usize, String)>,
+                parked: &Arc<Mutex<std::collections::HashMap<usize, Transaction>>>,
                 depth: usize,
             ) -> bool {
                 loop {
@@ -61,7 +66,7 @@ fn interleaving<W: Write>(script: &Script, out: &mut W) {
                     if op == "{" {
                         let cont = ctx.transaction(|| {
                             done.send((i, "ok".into())).unwrap();
-                            serve(ctx, sink, rx, done, depth + 1)
+                            serve(ctx, sink, rx, done, parked, depth + 1)
                         });
                         // the step that closed this transaction is acknowledged here, after the close returned
                         done.send((usize::MAX, "closed".into())).unwrap();
@@ -78,6 +83,16 @@ fn interleaving<W: Write>(script: &Script, out: &mut W) {
                     } else if let Some(v) = op.strip_prefix("send ") {
                         sink.send(v.trim().parse().unwrap());
                         done.send((i, "ok".into())).unwrap();
+                    } else if let Some(k) = op.strip_prefix("topen ") {
+                        let t = ctx.new_transaction();
+                        parked.lock().unwrap().insert(k.trim().parse().unwrap(), t);
+                        done.send((i, "ok".into())).unwrap();
+                    } else if let Some(k) = op.strip_prefix("tclose ") {
+                        let t = parked.lock().unwrap().remove(&k.trim().parse().unwrap());
+                        if let Some(t) = t {
+                            t.close();
+                        }
+                        done.send((i, "ok".into())).unwrap();
                     } else if op == "quit" {
                         return false;
                     } else {
@@ -85,7 +100,7 @@ fn interleaving<W: Write>(script: &Script, out: &mut W) {
                     }
                 }
             }
-            let _ = catch_unwind(AssertUnwindSafe(|| serve(&ctx, &sink, &rx, &done_tx, 0)));
+            let _ = catch_unwind(AssertUnwindSafe(|| serve(&ctx, &sink, &rx, &done_tx, &parked, 0)));
         }));
     }
     for (i, (t, op)) in steps.iter().enumerate() {
